@@ -312,7 +312,15 @@ type importJob struct {
 
 func importWorker(importWork chan importJob) {
 	for j := range importWork {
-		err := func() error {
+		err := func() (err error) {
+			// The payload comes from a client and is decoded in this pool
+			// goroutine, which has no recovering caller: a panic here would
+			// take the whole server down, so turn it into a failed import.
+			defer func() {
+				if r := recover(); r != nil {
+					err = fmt.Errorf("panic importing roaring data: %v", r)
+				}
+			}()
 			for viewName, viewData := range j.req.Views {
 				if viewName == "" {
 					viewName = viewStandard
@@ -321,6 +329,8 @@ func importWorker(importWork chan importJob) {
 				}
 				if len(viewData) == 0 {
 					return fmt.Errorf("no data to import for view: %s", viewName)
+				} else if len(viewData) < 2 {
+					return fmt.Errorf("data for view %s is too short to be roaring data", viewName)
 				}
 				fileMagic := uint32(binary.LittleEndian.Uint16(viewData[0:2]))
 				if fileMagic == roaring.MagicNumber { // if pilosa roaring format
